@@ -158,8 +158,18 @@ def check(ctx, text, with_comments, origin):
         if [id(n) for n in f] != [id(n) for n in exp]:
             viol.append(('C16:filter_differs_from_walk_select',
                          'filter(%s) yielded %d nodes, walk-then-select %d (%s)' % (name, len(f), len(exp), label)))
-        for skip in (0, 1, len(exp) - 1, len(exp), len(exp) + 1, len(exp) + 3):
+        for skip in (0, 1, len(exp) - 1, len(exp), len(exp) + 1, len(exp) + 3, -1, -len(exp) if exp else -2):
             if skip < 0:
+                # there is no (-n)-th match in a count from zero: reported like any other missing one
+                try:
+                    got = w.extract(tree, pred, skip=skip)
+                    viol.append(('C16:extract_returned_without_match', 'extract(%s, skip=%d) returned a node; counting '
+                                 'from zero there is no such match (%d nodes match) (%s)' % (name, skip, len(exp), label)))
+                except TypeError:
+                    ctx.hit('extract_no_match')
+                except Exception as e:
+                    viol.append(('C16:extract_raised_%s' % type(e).__name__, 'extract(%s, skip=%d) raised %s: %s (%s)' % (
+                        name, skip, type(e).__name__, e, label)))
                 continue
             try:
                 got = w.extract(tree, pred, skip=skip)
